@@ -535,4 +535,25 @@ theorem cgHistory_eq (o : CGObj ℝ) (cs : List (CGCall ℝ)) :
     unfold cgHistory
     simp only [cgCall, ih, List.map_cons]
 
+theorem cgHistoryE_eq (o : CGObj ℝ) (cs : List (Option (CGCall ℝ))) :
+    cgHistoryE o cs = (o, cs.map fun c => c.map fun c => cgForward c.n o.tol o.maxiter c.A c.b c.x0 c.M) := by
+  induction cs with
+  | nil => rfl
+  | cons c cs ih =>
+    cases c with
+    | none => simp only [cgHistoryE, ih, List.map_cons, Option.map_none]
+    | some c => simp only [cgHistoryE, cgCall, ih, List.map_cons, Option.map_some]
+
+theorem cgHistory2_eq (o1 o2 : CGObj ℝ) (cs : List (Bool × CGCall ℝ)) :
+    cgHistory2 o1 o2 cs = ((o1, o2), cs.map fun wc =>
+      let o := if wc.1 then o1 else o2
+      cgForward wc.2.n o.tol o.maxiter wc.2.A wc.2.b wc.2.x0 wc.2.M) := by
+  induction cs with
+  | nil => rfl
+  | cons wc cs ih =>
+    obtain ⟨w, c⟩ := wc
+    cases w with
+    | true => simp only [cgHistory2, cgCall, ih, List.map_cons, if_true]
+    | false => simp only [cgHistory2, cgCall, ih, List.map_cons, Bool.false_eq_true, if_false]
+
 end PP.LinSolve
